@@ -344,3 +344,18 @@ PROPS['C20'] = {
     'exhaustive_scope': 'the listed finite family of invocations',
     'assumptions': COMMON_ASSUME,
 }
+
+import c01 as _c01
+PROPS['C01'] = {
+    'level': 'exploration',
+    'technique': "bounded exhaustive enumeration of (element layout x length): rustc's layout computation on the real type definitions evaluates size_of/align_of of GenericArray<L, N>, L and [L; N] into generated static tables; real zeroed values are built for small and boundary lengths and their element addresses walked",
+    'parts': [_c01.part()],
+    'rule': ("element layouts: every (size, align) with align in {1,2,4,8,16,32,64}, size in 0..=64, align | size (134 repr(C, align) structs; every 7th in the quick tier) plus named shapes: padded tuples, repr(packed) structs (incl. a 41-byte one), aligned zero-sized types "
+             "([u64; 0], repr(align(64)) unit struct, (), PhantomData), MaybeUninit / ManuallyDrop wrappers, nested GenericArrays, niche-carrying types; lengths: all 1148 lengths typenum names (every N in 0..=1024 = every even/odd digit pattern to depth 10, "
+             "then 2^k, 2^k-1, 10^k up to 2^62) and, written out as nested UInt<..> types, for every binary depth 11..=62 the lengths 2^d, 2^d-1, 2^d+1 and two alternating digit patterns (every third in the quick tier); pairs whose byte size would reach rustc's "
+             "object-size bound 2^61 are skipped. Oracle per pair: size == N * size_of::<T>(), align == align_of::<T>(), size == size_of::<[T; N]>(). Address walk: for 20 layouts (incl. zero-sized and packed) x N in 0..=65 and boundary lengths a zeroed heap value "
+             "is built; as_slice() must be (array address, N), element i at base + i * size_of::<T>(), the last element ending exactly at the array's end. A case is one (layout, length) pair or one walk; non-trivial = N > 0."),
+    'exhaustive': True,
+    'exhaustive_scope': 'N <= 1024 x the layout family is complete; lengths above 1024 are a lattice over every binary depth to 62',
+    'assumptions': COMMON_ASSUME + ["the layout of a storage node depends on T only through (size, align), which the grid covers up to 64/64; field-by-field construction through ConstDefault is decided under C19"],
+}
